@@ -37,7 +37,18 @@ theorem C01_roundtrip (inp : List Nat) (o : Opts) (b : Built) (hb : Spec.IsBytes
     (h : (build inp o).val = .ok b) :
     ∃ r, Decode.decode ⟨b.qr.n, b.qr.cells⟩ (Regions.regionMap b.version) = .ok r ∧
       r.parsed = some ⟨b.mode, inp⟩ ∧ r.ecl = b.ecl ∧ r.mask = b.mask ∧ r.version = b.version :=
-  RoundTrip.roundtrip inp o b hb ho halpha h
+  let ⟨r, h1, h2, h3, h4, h5, _⟩ := RoundTrip.roundtrip inp o b hb ho halpha h
+  ⟨r, h1, h2, h3, h4, h5⟩
+
+/-- the data codewords physically in the symbol (read out and de-interleaved by the reference decoder)
+are exactly the ISO 7.4 encoding of the input (C06 carried to the symbol) -/
+theorem C01_data_codewords (inp : List Nat) (o : Opts) (b : Built) (hb : Spec.IsBytes inp) (ho : LegalOpts o)
+    (halpha : Spec.alphabetOK (o.mode.getD (bestEncoding inp)) inp = true)
+    (h : (build inp o).val = .ok b) :
+    ∃ r, Decode.decode ⟨b.qr.n, b.qr.cells⟩ (Regions.regionMap b.version) = .ok r ∧
+      r.dataCodewords = Bitstream.codewords b.mode b.version b.ecl inp :=
+  let ⟨r, h1, _, _, _, _, h6⟩ := RoundTrip.roundtrip inp o b hb ho halpha h
+  ⟨r, h1, h6⟩
 
 /-- automatic mode needs no alphabet hypothesis -/
 theorem C01_roundtrip_auto (inp : List Nat) (o : Opts) (b : Built) (hb : Spec.IsBytes inp) (ho : LegalOpts o)
